@@ -79,11 +79,12 @@ type c19In struct {
 	BMs                        [][]uint64
 	Mask                       int32
 	Nodes, Stored              []uint64
-	WordLists                  [][]byte // bitword words of the plain strings, complete and cut short
-	WordWidths                 []int    // the width WordLists[i] is to be read with
-	WordComplete               int      // the first WordComplete lists fill their last byte
-	LongStrs                   []string // 4100 short strings
-	LongWords                  [][]byte // their 2-bit words
+	WordLists                  [][]byte         // bitword words of the plain strings, complete and cut short
+	WordWidths                 []int            // the width WordLists[i] is to be read with
+	WordComplete               int              // the first WordComplete lists fill their last byte
+	SB                         *sigbits.SigBits // built once from Keys, shared
+	LongStrs                   []string         // 4100 short strings
+	LongWords                  [][]byte         // their 2-bit words
 	TB                         *bitmap.TailBitmap
 	Longs                      [][]uint64 // bitmaps whose lengths sit around powers of two (index builders)
 	Pos                        []int32
@@ -508,6 +509,7 @@ func c19Build(k int, al alloc) *c19In {
 		in.LongStrs = al.strs(ls)
 		in.LongWords = lw
 	}
+	in.SB = sigbits.New(in.Keys)
 	in.WordComplete = len(in.WordLists)
 	// word lists that do NOT fill their last byte (ToStr has to pad): every width < 8, 1..3 words short
 	for i, p := range plain {
@@ -732,6 +734,14 @@ func c19Alphabet() []c19Call {
 			a, b := sb.CountPrefixes(int32(k%2), int32(k+2), int32(1+k%9))
 			return pr(a, b)
 		}, false},
+		{"sigbits.CountPrefixes/shared-object", func(*c19In) int { return 12 }, func(in *c19In, k int) interface{} {
+			// ONE SigBits object shared by all callers, queried with wide and narrow counter lists in turn:
+			// a query is a function of (keys, s, e, m), not of the queries that came before it
+			ms := []int32{9, 2, 12, 1, 7, 3, 16, 2, 5, 11, 1, 8}
+			e := int32(len(in.Keys) - k%3)
+			a, b := in.SB.CountPrefixes(int32(k%2), e, ms[k])
+			return pr(a, b)
+		}, true},
 		{"sigbits.ShardByPrefix", func(in *c19In) int { return len(in.Keys) + 1 }, func(in *c19In, k int) interface{} {
 			a, b := sigbits.ShardByPrefix(in.Keys, int32(k+1))
 			return pr(a, b)
